@@ -446,9 +446,33 @@ theorem c17_model_checks_all_from (kinds : List Kind) (xs : List V) (tail : Opti
   simp only [RunOut.shift, Nat.add_sub_cancel_left] at h ⊢
   exact c17_model_checks_all kinds (xs.drop p) tail fuel h
 
+theorem c17_model_checks_first_from (kinds : List Kind) (xs : List V) (tail : Option Err) (fuel : Nat) (key : Fn) (p : Nat)
+    (h : match (runFirstFrom kinds (.fin xs tail) fuel key p).1 with | .oof => False | _ => True) :
+    let out := runFirstFrom kinds (.fin xs tail) fuel key p
+    checkFirst kinds (.fin (xs.drop p) tail) key (firstObsOf out.1) (out.2 - p) = true :=
+  checkFirst_from kinds xs tail fuel key p h
+
+/-- **The step checker on the model** — the form in which "several pipelines over one source
+    object" is evaluated on the implementation.  Full statement: for every list of steps
+    (`take k` on a pipe, resuming its suspended iterator when it has one; `all`; `first`),
+    `checkSteps` holds of the observations of `modelSteps`.  Proved here for the step lists in
+    which every step starts a fresh iterator (`all` / `first`: every dict spec, every
+    sequence of `glom(src, spec.all())` calls), for any number of steps, pipes and any
+    position the source is at.  For a resumed `take` the pieces are `c17_resume` (the resumed
+    chain runs as on the source without the items others took) and `c17_model_checks_take`;
+    their composition over a whole schedule is validated by the correspondence only. -/
+theorem c17_model_checks_steps_partial (fuel : Nat) (xs : List V) (tail : Option Err) (pipes : List (List Kind))
+    (steps : List Step) (pos : Nat) (live : List (Option (List StageSt))) (mem : List Resumed)
+    (hfresh : ∀ st ∈ steps, st.mode.isFresh = true)
+    (hfuel : ∀ o ∈ modelSteps fuel (.fin xs tail) pipes steps pos live, o.isOof = false) :
+    checkSteps xs tail pipes (steps.take (modelSteps fuel (.fin xs tail) pipes steps pos live).length)
+      ((modelSteps fuel (.fin xs tail) pipes steps pos live).map StepOut.obs) pos mem = true :=
+  checkSteps_fresh fuel xs tail pipes steps pos live mem hfresh hfuel
+
 /-- builder purity in the checker's form: a model run of the prefix spec before and after
     deriving from it, and of the derived spec against the freshly built one, is the same run -/
-theorem c17_model_checks_reuse (o o' : TakeObs) : checkReuse true o o o' o' = true := by
+theorem c17_model_checks_reuse (o o' : TakeObs) :
+    checkReuse true o o o' o' (some o') = true ∧ checkReuse true o o o' o' none = true := by
   have hr : ∀ t : TakeObs, (t == t) = true := fun t => by
     show (t.items == t.items && t.fin == t.fin && t.pulls == t.pulls) = true
     simp
@@ -487,6 +511,38 @@ example : ((det [.base idBase none, .map inc, .slice 0 (some 3) 1] nat 3).term.i
 example : ((runAll [.base idBase none, .chunked 0 none] (.fin [.int 1] none) 20).items == [V.list [.int 1]]) = true ∧
     (match composeE [.base idBase none, .chunked 0 none] [.int 1] with | .ok ys => ys == [V.list []] | _ => false) = true := by
   decide
+-- `c17_source_remainder` / `c17_second_pipeline`: sentinel-separated groups read from ONE stream
+-- `1 2 ∅ 3 4 ∅ 5` by three runs of `Iter(sentinel=None).all()`: each run starts where the
+-- previous one stopped (positions 3, 6, 7) and yields the next group
+private def groupKinds : List Kind := [.base idBase (some .none)]
+private def stream : Src := .fin [.int 1, .int 2, .none, .int 3, .int 4, .none, .int 5] none
+example : ((runAllFrom groupKinds stream 40 0).items == [V.int 1, .int 2] && (runAllFrom groupKinds stream 40 0).pulls == 3 &&
+    (runAllFrom groupKinds stream 40 3).items == [V.int 3, .int 4] && (runAllFrom groupKinds stream 40 3).pulls == 6 &&
+    (runAllFrom groupKinds stream 40 6).items == [V.int 5] && (runAllFrom groupKinds stream 40 6).pulls == 7) = true := by decide
+-- after the first group `next()` goes on with `3`; the source was not closed
+example : ((stream.after 3 2).rest == [V.int 3, .int 4] && !(stream.after 3 2).closed) = true := by decide
+-- an observation in which the rest of the stream is gone after the first stop (what closing the
+-- source does) fails the source check; so does one that reports `close()`
+example : checkSource stream 3 2 ⟨[], true, false⟩ = false ∧ checkSource stream 3 2 ⟨[.int 3, .int 4], false, true⟩ = false ∧
+    checkSource stream 3 2 ⟨[.int 3, .int 4], false, false⟩ = true := by decide
+-- the step checker on the three groups, and on the observation `[[1,2],[],[]]`
+private def allStep : Step := ⟨0, .all⟩
+example : checkSteps [.int 1, .int 2, .none, .int 3, .int 4, .none, .int 5] none [groupKinds] [allStep, allStep, allStep]
+    [.run ⟨[.int 1, .int 2], .exhausted, 3⟩, .run ⟨[.int 3, .int 4], .exhausted, 6⟩, .run ⟨[.int 5], .exhausted, 7⟩]
+    0 [{}] = true := by decide
+example : checkSteps [.int 1, .int 2, .none, .int 3, .int 4, .none, .int 5] none [groupKinds] [allStep, allStep, allStep]
+    [.run ⟨[.int 1, .int 2], .exhausted, 3⟩, .run ⟨[], .exhausted, 3⟩, .run ⟨[], .exhausted, 3⟩]
+    0 [{}] = false := by decide
+-- hypotheses of `c17_model_checks_steps_partial`: three fresh `all` steps, enough fuel
+example : ((modelSteps 40 stream [groupKinds] [allStep, allStep, allStep] 0 [none]).all (fun o => !o.isOof) &&
+    (modelSteps 40 stream [groupKinds] [allStep, allStep, allStep] 0 [none]).length == 3) = true := by decide
+-- `c17_resume`: hypotheses met by a two-stage chain suspended at position 1 while somebody else
+-- takes the items at [1, 3)
+example : (match (Src.inf (fun n => V.int n)) with | .fin xs _ => 1 ≤ xs.length | .inf _ => True) := trivial
+-- a callable separator: `split(sep=odd)` on `2 1 4 6 3` gives `[2] [4 6] []`
+example : (match composeE [.base idBase none, .split (.fn odd) none] [.int 2, .int 1, .int 4, .int 6, .int 3] with
+    | .ok ys => ys == [.list [.int 2], .list [.int 4, .int 6], .list []]
+    | .error _ => false) = true := by decide
 -- a heap with a re-used prefix spec (hypotheses of `c17_builder_pure`)
 example : (BHeap.mk [] []).wf := by intro i o h; simp at h
 
